@@ -1,6 +1,7 @@
 package main
 
 import (
+	"go/token"
 	"fmt"
 	"go/types"
 	"sort"
@@ -99,12 +100,9 @@ func VerifyFunction(p *Program, spec *Spec, fn *ssa.Function, con *Contract) (re
 		env := x.topEnv(st, fn.String()+" ensures")
 		sig := fn.Signature
 		// source-level locals (latest values); locals never assigned on this path are undefined values
-		pfx := fn.String() + "."
-		for n, v := range st.names {
-			if strings.HasPrefix(n, pfx) {
-				if _, clash := env.vars[n[len(pfx):]]; !clash {
-					env.vars[n[len(pfx):]] = v
-				}
+		for n, v := range s.resolveNames(st, fn, token.NoPos) {
+			if _, clash := env.vars[n]; !clash {
+				env.vars[n] = v
 			}
 		}
 		for _, b := range fn.Blocks {
